@@ -101,10 +101,11 @@ theorem SwitchFeatures_unmarshal_ns (recv : V) (data : Slice) : NS (SwitchFeatur
     · intro st _; post_auto
   · exact post_panic
 
-theorem PacketIn_unmarshal_ns (hEth : ∀ recv d, NS (PEthernet.unmarshal recv d)) (recv : V) (d : Slice) :
-    NS (PacketIn.unmarshal recv d) := by
+theorem PacketIn_unmarshal_ns (hEth : ∀ recv (d : Slice), d.WF → NS (PEthernet.unmarshal recv d)) (recv : V) (d : Slice)
+    (hwf : d.WF) : NS (PacketIn.unmarshal recv d) := by
   unfold PacketIn.unmarshal
   post_auto [msgTryU_ns, Header_unmarshal_ns, Match_unmarshal_ns, Match_lenM_ns, hEth]
+  exact (Slice.fromR_wf _ hwf _ _ ‹_›).1
 
 theorem PortStatus_unmarshal_ns (recv : V) (d : Slice) : NS (PortStatus.unmarshal recv d) := by
   unfold PortStatus.unmarshal; post_auto [msgTryU_ns, Header_unmarshal_ns, PhyPort_unmarshal_ns]
@@ -376,14 +377,13 @@ theorem post_ite {α} {c : Prop} [Decidable c] {x y : R α} {Q : α → Prop}
   · rw [if_neg h]; exact h2 h
 
 /-- one level of Parse never spins when the nested Parse does not -/
-theorem parseStep_ns (hEth : ∀ recv d, NS (PEthernet.unmarshal recv d)) (hFS : FlowStatsInstrLoopOK)
+theorem parseStep_ns (hEth : ∀ recv (d : Slice), d.WF → NS (PEthernet.unmarshal recv d)) (hFS : FlowStatsInstrLoopOK)
     (self : Slice → R V) (hself : ∀ d : Slice, d.WF → d.buf.length ≤ 65535 → NS (self d))
     (b : Slice) (hb : SmallFrame b) : NS (parseStep self b) := by
-  have hlen : b.len ≤ 65535 := by have := hb.1; unfold Slice.WF at this; have := hb.2; omega
   unfold parseStep
   apply post_bind_ns (ns_byteAt _ _); intro tb _
   extract_lets t
-  refine post_ite (fun _ => Hello_unmarshal_ns _ _ hlen) (fun _ => ?_)
+  refine post_ite (fun _ => Hello_unmarshal_ns _ _) (fun _ => ?_)
   refine post_ite (fun _ => ?_) (fun _ => ?_)
   · apply post_bind_ns (ErrorMsg_unmarshal_ns _ _); intro e _
     exact post_ite (fun _ => VendorError_unmarshal_ns _ _) (fun _ => ns_pure _)
@@ -394,7 +394,7 @@ theorem parseStep_ns (hEth : ∀ recv d, NS (PEthernet.unmarshal recv d)) (hFS :
   refine post_ite (fun _ => SwitchFeatures_unmarshal_ns _ _) (fun _ => ?_)
   refine post_ite (fun _ => SwitchConfig_unmarshal_ns _ _) (fun _ => ?_)
   refine post_ite (fun _ => SwitchConfig_unmarshal_ns _ _) (fun _ => ?_)
-  refine post_ite (fun _ => PacketIn_unmarshal_ns hEth _ _) (fun _ => ?_)
+  refine post_ite (fun _ => PacketIn_unmarshal_ns hEth _ _ hb.1) (fun _ => ?_)
   refine post_ite (fun _ => FlowRemoved_unmarshal_ns _ _) (fun _ => ?_)
   refine post_ite (fun _ => PortStatus_unmarshal_ns _ _) (fun _ => ?_)
   refine post_ite (fun _ => FlowMod_unmarshal_ns _ _) (fun _ => ?_)
@@ -402,7 +402,7 @@ theorem parseStep_ns (hEth : ∀ recv d, NS (PEthernet.unmarshal recv d)) (hFS :
   refine post_ite (fun _ => MultipartRequest_unmarshal_ns _ _) (fun _ => ?_)
   exact post_ite (fun _ => MultipartReply_unmarshalWith_ns hFS _ hb.1 hb.2) (fun _ => post_err)
 
-theorem parseD_ns (hEth : ∀ recv d, NS (PEthernet.unmarshal recv d)) (hFS : FlowStatsInstrLoopOK) :
+theorem parseD_ns (hEth : ∀ recv (d : Slice), d.WF → NS (PEthernet.unmarshal recv d)) (hFS : FlowStatsInstrLoopOK) :
     ∀ depth (b : Slice), SmallFrame b → NS (parseD depth b) := by
   intro depth
   induction depth with
@@ -412,7 +412,7 @@ theorem parseD_ns (hEth : ∀ recv d, NS (PEthernet.unmarshal recv d)) (hFS : Fl
     unfold parseD
     exact recoverR_ns _ (parseStep_ns hEth hFS _ (fun d h1 h2 => ih d ⟨h1, h2⟩) b hb)
 
-theorem parse_ns (hEth : ∀ recv d, NS (PEthernet.unmarshal recv d)) (hFS : FlowStatsInstrLoopOK)
+theorem parse_ns (hEth : ∀ recv (d : Slice), d.WF → NS (PEthernet.unmarshal recv d)) (hFS : FlowStatsInstrLoopOK)
     (depth : Nat) (b : Slice) (hb : SmallFrame b) : NS (parse depth b) := by
   unfold parse
   exact parseD_ns hEth hFS _ b hb
